@@ -34,7 +34,11 @@ from explorerscript.ssb_converting.compiler.compile_handlers.blocks.switches.def
 from explorerscript.ssb_converting.compiler.compile_handlers.blocks.switches.switch_header import (
     SwitchHeaderCompileHandler,
 )
-from explorerscript.ssb_converting.compiler.utils import CompilerCtx, SsbLabelJumpBlueprint
+from explorerscript.ssb_converting.compiler.utils import (
+    CompilerCtx,
+    SsbLabelJumpBlueprint,
+    does_op_end_control_flow,
+)
 from explorerscript.ssb_converting.ssb_data_types import SsbOperation
 from explorerscript.ssb_converting.ssb_special_ops import (
     SsbLabel,
@@ -114,6 +118,10 @@ class SwitchBlockCompileHandler(
                 ops = h.collect()
                 start_label = h.get_start_label()
                 assert start_label is not None
+                if len(ops) == 1 and self._may_fall_through(case_ops):
+                    # The block was only a jump that got merged into the case header, so it has no ops.
+                    # The case block before it still needs that jump when it falls through.
+                    ops = [self._generate_jump_operation(OP_JUMP, [], start_label)] + ops
                 if isinstance(h, DefaultCaseBlockCompileHandler):
                     assert default_jmp_to_case_block is not None
                     default_ops = [default_jmp_to_case_block.build_for(start_label)]
@@ -135,6 +143,16 @@ class SwitchBlockCompileHandler(
         for h in self._case_handlers:
             header_ops += h.get_processed_header_jumps()
         return header_ops + [default_start_label] + default_ops + case_ops + [end_label]
+
+    @staticmethod
+    def _may_fall_through(case_ops: list[SsbOperation]) -> bool:
+        """Whether the execution can continue after the last of the case block ops collected so far."""
+        if len(case_ops) == 0:
+            return False
+        # Case blocks end with their end label.
+        if len(case_ops) < 2 or isinstance(case_ops[-2], SsbLabel):
+            return True
+        return not does_op_end_control_flow(case_ops[-2], case_ops[-3] if len(case_ops) > 2 else None)
 
     def add(self, obj: _SupportedHandlers) -> None:
         if isinstance(obj, CaseBlockCompileHandler):
